@@ -251,8 +251,94 @@ func c13HSScenario(h c13HS, il bool) *Scenario {
 	}
 }
 
+// c13StrayInitAckScenario: the endpoint is the client.  Before the genuine INIT-ACK a stray
+// one arrives that does not belong to the association (SCTP ports of another association)
+// and differs in the zero-checksum parameter: it is discarded as a whole - what the endpoint
+// sends afterwards follows the genuine INIT-ACK alone.
+func c13StrayInitAckScenario(il, enabled, strayZC, realZC bool) *Scenario {
+	return &Scenario{
+		Name:    "zc-stray-initack",
+		Horizon: 60 * time.Second,
+		Setup:   func(m *Sim) { m.W.delay = [2]time.Duration{time.Millisecond, time.Millisecond} },
+		Body: func(m *Sim) {
+			cfg := epCfg{NoInterleave: !il, ZeroChecksum: enabled, MTU: 228, RTOMax: 4000, InitTSN: 91}
+			p := newScripted(m, cfg, il, realZC)
+			p.dialT = m.Go("dial", func() { m.Dial(0, cfg) })
+			out := p.settle(0)
+			if len(out) == 0 || out[0].dec == nil || out[0].dec.Chunks[0].Typ != wINIT {
+				m.Failf("e2.base", "no INIT")
+				c03Teardown(m, p)
+				return
+			}
+			cookie := []byte("cookie-cookie-cookie-cookie-1234")
+			iack := func(zc bool) []byte {
+				ps := [][]byte{wTLVBytes(7, cookie, true), wTLVBytes(0x8008, []byte{130, 192, 64, 194}[:map[bool]int{false: 2, true: 4}[il]], false)}
+				if zc {
+					ps = append(ps, wTLVBytes(0x8001, u32(1), true))
+				}
+				return chunkBytes(wINITACK, 0, wInitVal(p.tag, p.arwnd, 65535, 65535, p.tsn0, ps...))
+			}
+			stray := wNewPacket(5001, 5002, p.aTag)
+			stray.rawChunk(iack(strayZC))
+			if out := p.inject(stray.bytes(true)); len(out) != 0 {
+				m.Failf("cksum.stray", "an INIT-ACK for other ports was answered with %s", out[0].dec.Summary())
+			}
+			out = p.inject(p.pkt(iack(realZC)))
+			gotEcho := false
+			for _, o := range out {
+				if o.dec != nil && o.dec.Chunks[0].Typ == wCOOKIEECHO {
+					gotEcho = true
+				}
+			}
+			if !gotEcho {
+				m.Failf("e2.base", "no COOKIE-ECHO after the genuine INIT-ACK")
+				c03Teardown(m, p)
+				return
+			}
+			p.inject(p.pkt(chunkBytes(wCOOKIEACK, 0, nil)))
+			m.S.Join(p.dialT)
+			p.a = m.As[0]
+			if p.a == nil {
+				m.Failf("e2.base", "handshake did not complete: %v", m.Err[0])
+				c03Teardown(m, p)
+				return
+			}
+			p.inject(p.pkt(chunkBytes(wHEARTBEAT, 0, wTLVBytes(1, []byte("12345678"), true))))
+			s, _ := p.a.OpenStream(2, PayloadTypeWebRTCBinary)
+			s.WriteSCTP(payload(2, 0, 300), PayloadTypeWebRTCBinary)
+			p.settle(0)
+			p.ackAll()
+			for _, ev := range m.W.events {
+				if ev.Kind == "send" && ev.From == 0 && ev.Pkt.dec != nil {
+					d := ev.Pkt.dec
+					if d.CksumZero && !realZC {
+						m.Failf("cksum.emit", "endpoint emitted a zero checksum (%s): only the discarded INIT-ACK for other ports advertised acceptance", d.Summary())
+					}
+					if !d.CksumZero && !d.CksumOK {
+						m.Failf("cksum.emit", "endpoint emitted a wrong CRC32c")
+					}
+				}
+			}
+			md, _ := p.a.Metadata()
+			if md.ZeroChecksumSendingEnabled != realZC {
+				m.Failf("cksum.negotiation", "stray INIT-ACK zc=%v, genuine zc=%v: ZeroChecksumSendingEnabled=%v", strayZC, realZC, md.ZeroChecksumSendingEnabled)
+			}
+			m.Observe("zc=%v", md.ZeroChecksumSendingEnabled)
+			c03Teardown(m, p)
+		},
+		Final: func(m *Sim, x *Exec) { generalVerdicts(m, x, false) },
+	}
+}
+
 func propC13(j *Job) {
 	twoInitCases(j, "C13")
+	for _, il := range []bool{false, true} {
+		for _, en := range []bool{false, true} {
+			for _, zz := range [][2]bool{{true, false}, {false, true}, {true, true}} {
+				j.Explore(fmt.Sprintf("stray-initack/il%v/en%v/stray%v/real%v", il, en, zz[0], zz[1]), c13StrayInitAckScenario(il, en, zz[0], zz[1]), Budget{}, nil)
+			}
+		}
+	}
 	for _, il := range []bool{false, true} {
 		for _, b2b := range []bool{false, true} {
 			j.Explore(fmt.Sprintf("collision/il%v/b2b%v", il, b2b), c13CollisionScenario(il, b2b), Budget{D: 1}, nil)
